@@ -43,6 +43,17 @@
 (* content of vendor-private subsections (all subsections generated here    *)
 (* carry public-format content); how the scope header is counted by         *)
 (* num_attributes (harness accepts n or n+1, consistently with .attributes).*)
+(*                                                                         *)
+(* Deviations of the unchanged tree found by this check (clause:tag), all   *)
+(* repaired by fixes/C20-attribute-walkers.patch:                           *)
+(*   subsections.flat:n>=2, subsections.interleaved:n>=2 - _make_subsections *)
+(*     seeks to the FIRST record's start + this record's length and takes    *)
+(*     the next start from stream.tell(); only nested-full consumption puts  *)
+(*     the shared stream where the walk needs it (equal lengths: endless).   *)
+(*   subsubsections.flat:n>=2, subsubsections.interleaved:n>=2 - the same in *)
+(*     _make_subsubsections.                                                 *)
+(*   attributes.interleaved:n>=2 - _make_attributes steers by stream.tell(): *)
+(*     a suspended iterator resumed after another one ran stops early.       *)
 (***************************************************************************)
 EXTENDS Elf, TLC, Json, CSV, IOUtils
 
